@@ -304,9 +304,10 @@ Det(q, n, v, prev, dev) ==
                           IN IF IsU(w) \/ IsErr(w) THEN w
                              ELSE IF ~IsN(w) THEN ErrPy ELSE Num(QAdd(<<c[1], c[2]>>, Q(w)))
   ELSE IF ~IsNone(bad) THEN bad
-  ELSE CASE kd = "tuple" -> <<"t", cv>>
-         [] kd = "box" -> <<"b", cv>>
-         [] kd = "list" -> <<"l", cv>>
+  \* TLCEval: store the elements, not an unevaluated [i \in .. |-> ..] that keeps its whole context alive
+  ELSE CASE kd = "tuple" -> <<"t", TLCEval(cv)>>
+         [] kd = "box" -> <<"b", TLCEval(cv)>>
+         [] kd = "list" -> <<"l", TLCEval(cv)>>
          [] kd \in {"add", "sub", "mul", "truediv", "mod", "pow", "divmod"} -> BinOp(kd, cv[1], cv[2])
          [] kd = "floordiv" -> IF dev /\ IsConstOne(q, a[2]) /\ IsN(cv[1]) THEN cv[1] ELSE BinOp(kd, cv[1], cv[2])
          [] kd = "vmulx" -> IF IsN(cv[1]) /\ IsN(cv[2]) THEN BinOp("mul", cv[1], cv[2]) ELSE ErrPy   \* (Vector(a, 2, 0) * b).x
@@ -324,7 +325,7 @@ Det(q, n, v, prev, dev) ==
               ELSE IF \E i \in 2..4 : ~IsNone(cv[i]) /\ (~IsN(cv[i]) \/ ~IT(q, a[i])) THEN ErrOut
               ELSE IF ~IsNone(cv[4]) /\ cv[4][2] = 0 THEN ErrPy                  \* slice step cannot be zero
               ELSE LET idx == SliceIdx(Len(cv[1][2]), cv[2], cv[3], cv[4])
-                   IN <<IF cv[1][1] = "l" THEN "l" ELSE "t", [j \in 1..Len(idx) |-> cv[1][2][idx[j] + 1]]>>
+                   IN <<IF cv[1][1] = "l" THEN "l" ELSE "t", TLCEval([j \in 1..Len(idx) |-> cv[1][2][idx[j] + 1]])>>
          [] kd = "attr" -> IF cv[1][1] = "b" /\ c[1] <= Len(cv[1][2]) THEN cv[1][2][c[1]] ELSE ErrPy
          [] kd = "call" -> Fn(c[1], Tail(c), cv)
          [] kd = "meth" -> Meth(c[1], Tail(c), cv)
@@ -388,7 +389,7 @@ Den(q) ==
                [n \in 1..NN(q) |-> IF \A v \in all : IsN(v[n])
                                    THEN LET S == {Q(v[n]) : v \in all} IN <<QSetMin(S), QSetMax(S)>>
                                    ELSE <<>>]
-  IN [recs |-> recs, all |-> all, ok |-> ok, why |-> why, sup |-> sup]
+  IN [recs |-> recs, all |-> all, n |-> Cardinality(all), ok |-> ok, why |-> why, sup |-> sup]
 
 \* ------------------------------------------------------------------ construction rewrites
 \* The algebraic simplifications a library may perform when an expression is BUILT, each
@@ -490,7 +491,9 @@ Init == \/ /\ q \in 1..NC /\ pc = "begin" /\ asg = <<>> /\ drawn = {} /\ val = <
 \* tier; otherwise Pick takes one complete evaluation of the denotation per behaviour.
 UseMachine == IOEnv.MACHINE = "1"
 Begin == /\ pc = "begin" /\ pc' = (IF UseMachine THEN "draw" ELSE "pick")
-         /\ asg' = Asg0(q) /\ den' = Den(q)
+         /\ asg' = Asg0(q)
+         \* the machine needs the set of value vectors only (DoneInDenotation); Pick needs the records
+         /\ den' = (IF UseMachine THEN [Den(q) EXCEPT !.recs = {}] ELSE [Den(q) EXCEPT !.all = {}])
          /\ val' = (IF UseMachine THEN Eval(q, Asg0(q), {}) ELSE <<>>)
          /\ UNCHANGED <<q, drawn>>
 Pick == /\ pc = "pick"
@@ -498,7 +501,7 @@ Pick == /\ pc = "pick"
              /\ pc' = (IF r.v = RejVec THEN "rejected" ELSE "done")
              /\ val' = r.v /\ asg' = r.a /\ drawn' = r.d
         \* the evaluations themselves are not carried further (a state would cost |all| x its size)
-        /\ den' = [recs |-> {}, all |-> {}, ok |-> den.ok, why |-> den.why, sup |-> den.sup]
+        /\ den' = [recs |-> {}, all |-> {}, n |-> den.n, ok |-> den.ok, why |-> den.why, sup |-> den.sup]
         /\ UNCHANGED q
 Draw == /\ pc = "draw" /\ Ready(q, val, drawn) # {}
         /\ LET p == SetMin(Ready(q, val, drawn)) IN
@@ -578,7 +581,7 @@ InSupport == Good => \A n \in 1..NN(q) : den.sup[n] # <<>> =>
 EmitCase ==
 (pc \in {"draw", "pick"} /\ drawn = {}) =>
      PrintT(ToJson([t |-> "case", q |-> q, ok |-> den.ok, why |-> den.why,
-                    n |-> Cardinality(den.all),
+                    n |-> den.n,
                     sup |-> den.sup,
                     finals |-> Finals(q),
                     kwlazy |-> KwargLazyTrigger(q),
